@@ -80,6 +80,9 @@ func c03LongChild(_ string, args []string) {
 				_, _, err := a.Ping(ctx, b.NodeID(), 30)
 				cancel()
 				okc = err == nil
+				if !okc {
+					time.Sleep(100 * time.Millisecond) // "no route" returns at once while the mesh is still forming
+				}
 			}
 			if !okc {
 				res.Setup = "mesh did not form"
